@@ -1135,12 +1135,45 @@ impl<'ast, 'res> Resolver<'ast, 'res> {
         }
     }
 
-    fn classify_expr(&self, expr: ExprRef<'ast>) -> ExprClass {
-        match expr {
-            Expr::Number(..) | Expr::Bool(..) | Expr::Null(..) | Expr::Var(..) => {
+    // A read of a variable owned by an enclosing function can run before that
+    // variable's declaration has, which is a runtime error
+    fn var_read_class(&self, name: &str) -> ExprClass {
+        match self.lookup_var_info(name) {
+            Some((_, local)) if self.facts.locals[local.0 as usize].owner == self.current_owner => {
                 ExprClass::PureNoTrap
             }
-            Expr::String { .. } => ExprClass::PureNoTrap,
+            _ => ExprClass::PureMayTrap,
+        }
+    }
+
+    // An expression built from literals and operators only. The static checks
+    // decide its operand types exactly, so once accepted it cannot hit a type error.
+    fn is_constant_expr(expr: ExprRef<'ast>) -> bool {
+        match expr {
+            Expr::Number(..) | Expr::Bool(..) | Expr::Null(..) => true,
+            Expr::String { parts, .. } => matches!(parts, StringParts::Static(..)),
+            Expr::Array { elements, .. } => elements.iter().all(|e| Self::is_constant_expr(e)),
+            Expr::Binary { lhs, rhs, .. } => {
+                Self::is_constant_expr(lhs) && Self::is_constant_expr(rhs)
+            }
+            Expr::Unary { expr, .. } => Self::is_constant_expr(expr),
+            Expr::Var(..) | Expr::Index { .. } | Expr::Member { .. } | Expr::Call { .. } => false,
+        }
+    }
+
+    fn classify_expr(&self, expr: ExprRef<'ast>) -> ExprClass {
+        match expr {
+            Expr::Number(..) | Expr::Bool(..) | Expr::Null(..) => ExprClass::PureNoTrap,
+            Expr::Var(name, ..) => self.var_read_class(name),
+            Expr::String { parts, .. } => match parts {
+                StringParts::Static(..) => ExprClass::PureNoTrap,
+                StringParts::Interpolated(segments) => {
+                    segments.iter().fold(ExprClass::PureNoTrap, |class, segment| match segment {
+                        StringSegment::Literal(..) => class,
+                        StringSegment::Variable(name) => class.join(self.var_read_class(name)),
+                    })
+                }
+            },
             Expr::Array { elements, .. } => {
                 elements.iter().fold(ExprClass::PureNoTrap, |class, element| {
                     class.join(self.classify_expr(element))
@@ -1152,24 +1185,38 @@ impl<'ast, 'res> Resolver<'ast, 'res> {
                 .join(ExprClass::PureMayTrap),
             Expr::Binary { op, lhs, rhs, .. } => {
                 let class = self.classify_expr(lhs).join(self.classify_expr(rhs));
-                if matches!(op, BinaryOp::Divide | BinaryOp::Mod) {
+                // An operand whose type is only known at run time may not fit the operator
+                if matches!(op, BinaryOp::Divide | BinaryOp::Mod) || !Self::is_constant_expr(expr) {
                     class.join(ExprClass::PureMayTrap)
                 } else {
                     class
                 }
             }
-            Expr::Unary { expr, .. } => self.classify_expr(expr),
-            Expr::Member { object, .. } => self.classify_expr(object),
+            Expr::Unary { expr: operand, .. } => {
+                let class = self.classify_expr(operand);
+                if Self::is_constant_expr(operand) {
+                    class
+                } else {
+                    class.join(ExprClass::PureMayTrap)
+                }
+            }
+            // A member that is not called is a runtime error
+            Expr::Member { object, .. } => self.classify_expr(object).join(ExprClass::PureMayTrap),
             Expr::Call { callee, args, .. } => {
                 let mut class = args
                     .args
                     .iter()
                     .fold(ExprClass::PureNoTrap, |class, arg| class.join(self.classify_expr(arg)));
+                let constant_args = args.args.iter().all(|arg| Self::is_constant_expr(arg));
 
                 match callee {
                     Expr::Var(func_name, ..) => {
                         if let Some(builtin) = GlobalBuiltin::from_name(func_name) {
                             class = class.join(effects::global_builtin_class(builtin));
+                            // `command` refuses a program name that is not a string
+                            if matches!(builtin, GlobalBuiltin::Command) && !constant_args {
+                                class = class.join(ExprClass::PureMayTrap);
+                            }
                         } else if self.lookup_func(func_name).is_none() {
                             class = class.join(ExprClass::Impure);
                         }
@@ -1178,6 +1225,10 @@ impl<'ast, 'res> Resolver<'ast, 'res> {
                         class = class.join(self.classify_expr(object));
                         if let Some(builtin) = MemberBuiltin::from_name(field) {
                             class = class.join(effects::member_builtin_class(builtin));
+                            // The receiver or an argument may turn out not to fit the method
+                            if !(constant_args && Self::is_constant_expr(object)) {
+                                class = class.join(ExprClass::PureMayTrap);
+                            }
                         } else {
                             class = class.join(ExprClass::Impure);
                         }
